@@ -74,6 +74,8 @@ impl HashChecker {
     let mut hasher = Sha256::new();
     for entry in fs::read_dir(path)?.into_iter() {
       hasher.update(entry?.file_name().as_encoded_bytes());
+      hasher.update([0u8]); // Delimit entry names (NUL cannot occur in a file name), so that different name sets
+                            // with the same concatenation (e.g. {a, b} and {ab}) get different hashes.
     }
     Ok(hasher.finalize().into())
   }
